@@ -33,8 +33,10 @@ pub fn check_clean(s: &str) -> CaseResult {
         return Err(Failure::new("clean|not-idempotent", format!("clean({:?}) = {:?} but cleaning that gives {:?}", s, got_s, again)));
     }
     // PathExt method must be the same function
-    if std::path::Path::new(s).clean() != got {
-        return Err(Failure::new("clean|pathext-differs", format!("Path::new({:?}).clean() != sys::clean", s)));
+    // (compared as text: PathBuf equality is component-wise and would hide "//" vs "/")
+    let via_method = std::path::Path::new(s).clean();
+    if via_method.to_str() != Some(got_s.as_str()) || std::path::PathBuf::from(s).clean().to_str() != Some(got_s.as_str()) {
+        return Err(Failure::new("clean|pathext-differs", format!("Path::new({:?}).clean() = {:?} but sys::clean gives {:?}", s, via_method, got_s)));
     }
     Ok(())
 }
@@ -79,9 +81,9 @@ fn nontrivial(s: &str) -> bool {
 }
 
 pub fn run(c: &Ctx) {
-    c.set_rule("exhaustive: every string over {'/','.','a','b'} up to length 9 (quick) / 11 (thorough), every byte string over {'/','.','a',0xE9,0xFF} up to length 6 / 7 that is not valid UTF-8 (reference applied byte-wise), then seeded random strings <=48 symbols over an adversarial alphabet (multi-byte, '~', '$', ':', NUL, newline). Oracle: independent port of Go path.Clean + idempotence + absoluteness + non-empty. Non-trivial = input containing at least one '..' component and one normal component; distinct by input string.");
+    c.set_rule("exhaustive: every string over {'/','.','a','b'} up to length 10 (quick) / 11 (thorough), every byte string over {'/','.','a',0xE9,0xFF} up to length 6 / 7 that is not valid UTF-8 (reference applied byte-wise), then seeded random strings <=48 symbols over an adversarial alphabet (multi-byte, '~', '$', ':', NUL, newline). Oracle: independent port of Go path.Clean + idempotence + absoluteness + non-empty. Non-trivial = input containing at least one '..' component and one normal component; distinct by input string.");
     c.assume("ref_clean is a faithful port of Go's path.Clean (checked against Go's own cleantests table in harness unit tests)");
-    let max_len = c.tier.pick(9, 11);
+    let max_len = c.tier.pick(10, 11);
     let n = count_upto(4, max_len);
     par_for(n, 4096, |i| {
         let mut s = String::new();
